@@ -298,4 +298,56 @@ def Router.editStep (upper : Str → Str) (R : Router) : EditOp → Router
 def Router.editRun (upper : Str → Str) (ops : List EditOp) : Router :=
   ops.foldl (Router.editStep upper) {}
 
+/-! ## 11. a router freshly built from the survivors
+
+What the property compares the edited router with.  The survivors are read off the edited router
+(`routes` with the route objects, `named_routes`, the hook pairs of the tree) and registered one
+by one on a new `RadiRouter()`: per route one `add` without methods (it creates the route under
+the names of its first rule) and one `add` per method, per name one `add` without methods, per
+hook pair one `add_hook` per slot.  All calls are the post-parse halves (`addParsed`,
+`addHookParsed`): the rule text a method was registered under is not kept by the router. -/
+
+def hookOwn (pre : List Sym) : Option HookPair → List (List Sym × HookPair)
+  | some hp => [(pre, hp)]
+  | none => []
+
+mutual
+/-- the hook pairs of a tree with their patterns (filters of the tree inline), depth first -/
+def hookListN (pre : List Sym) : Node → List (List Sym × HookPair)
+  | .mk _ _ _ _ h lits tok => hookOwn pre h ++ hookListL pre lits ++ hookListT pre tok
+def hookListT (pre : List Sym) : Option Node → List (List Sym × HookPair)
+  | none => []
+  | some t => hookListN (pre ++ [Sym.tok t.filter]) t
+def hookListL (pre : List Sym) : List Node → List (List Sym × HookPair)
+  | [] => []
+  | k :: ks => hookListN (pre ++ k.key.map Sym.lit) k ++ hookListL pre ks
+end
+
+/-- register route `r` with its method table -/
+def Router.plant (F : Router) (r : Route) : Router :=
+  let F := (F.addParsed { rule := r.rule, methods := [], handler := 0 } ⟨r.syms, r.params, r.symsOut⟩).1
+  r.methods.foldl (fun F m =>
+    (F.addParsed { rule := r.rule, methods := [m.1], handler := m.2.handler } ⟨r.syms, m.2.params, r.symsOut⟩).1) F
+
+/-- install the pair `hp` at pattern `q` -/
+def Router.plantHook (F : Router) (q : List Sym) (hp : HookPair) : Router :=
+  let F := match hp.simple with
+    | some h => (F.addHookParsed ⟨q, [], q⟩ h false).1
+    | none => F
+  match hp.partialHook with
+  | some h => (F.addHookParsed ⟨q, [], q⟩ h true).1
+  | none => F
+
+/-- the router freshly built from the survivors of `R` -/
+def Router.fresh (R : Router) : Router :=
+  let F := R.routes.foldl (fun F x =>
+    match R.obj? x.2 with
+    | some r => F.plant r
+    | none => F) {}
+  let F := R.named.foldl (fun F x =>
+    match R.obj? x.2 with
+    | some r => (F.addParsed { rule := r.rule, methods := [], handler := 0, name := some x.1 } ⟨r.syms, r.params, r.symsOut⟩).1
+    | none => F) F
+  (hookListN [] R.tree).foldl (fun F x => F.plantHook x.1 x.2) F
+
 end Ombott.Router
